@@ -7,14 +7,25 @@ using namespace vf;
 
 static long countCases(Ctx& c)
 {
-    if (c.prop == "C11" || c.prop == "C12") return fld::count(c);
+    if (c.prop == "C12") return fld::count(c) + c13::detCount() + (c.thorough() ? 200000 : 8000);
+    if (c.prop == "C11") return fld::count(c);
     if (c.prop == "C13") return c13::count(c);
     if (c.prop == "C14") return c14::count(c);
     return -1;
 }
 static void runCase(Ctx& c, long idx)
 {
-    if (c.prop == "C11" || c.prop == "C12") fld::run(c, idx);
+    if (c.prop == "C12" && idx >= fld::count(c))
+    {
+        // layout of the variable-length parts written by setData (same executions as C13, judged against the wire model)
+        long j = idx - fld::count(c);
+        if (j < c13::detCount())
+            c13::det(c, j);
+        else
+            c13::random(c, j);
+        c.count("variable_part_layout_cases");
+    }
+    else if (c.prop == "C11" || c.prop == "C12") fld::run(c, idx);
     else if (c.prop == "C13")
     {
         c13::run(c, idx);
